@@ -228,6 +228,27 @@ def KSub.apply (t : KSub) (g₁ g₂ : Nat) : Option KValue :=
     if k1 < c1n && k2 < c2n then (recs.getD k1 []).getD k2 ⟨0, none, true⟩ |> some else none
   | .bad => none
 
+/-- ADVISORY ONLY: the reading in which a format-1 subtable that covers the first glyph ends the lookup even when it
+    has no record for the second glyph.  No shaper does this (HarfBuzz, CoreText, DirectWrite continue with the next
+    subtable), and fontc/fontTools rely on the fall-through whenever glyph pairs precede class subtables; the tag
+    `f1-terminal-reading-differs` counts the cases in which this reading would change the result. -/
+def KSub.applyTerminal (t : KSub) (g₁ g₂ : Nat) : Option KValue :=
+  match t with
+  | .f1 cov sets =>
+    match cov.idxOf? g₁ with
+    | none => none
+    | some ci => some ((((sets.getD ci []).find? (·.1 == g₂)).map (·.2)).getD ⟨0, none, false⟩)
+  | t => t.apply g₁ g₂
+
+def kernAtTerminal (f : KFont) (lookups : List Nat) (loc : List Rat) (g₁ g₂ : Nat) : Rat :=
+  lookups.foldl (fun (acc : Rat) li =>
+    match f.lookups.find? (·.1 == li) with
+    | some (_, _, some subs) =>
+      match subs.findSome? (fun t => t.applyTerminal g₁ g₂) with
+      | some v => acc + v.at f.ivs loc
+      | none => acc
+    | _ => acc) 0
+
 /-- All lookups of the script's kern feature apply in turn, each through its first applicable subtable;
     their advances add up. -/
 def kernAt (f : KFont) (lookups : List Nat) (loc : List Rat) (g₁ g₂ : Nat) : Rat × Bool :=
@@ -321,7 +342,10 @@ def handleE2E : Handler := fun s =>
           (if overlap then ["classes-overlap"] else []) ++ (if f.ivs.isSome then ["variable-kern"] else []) ++
           (if model.any (·.isCC) then ["class-class"] else []) ++ [s!"subtables{nSubs}"] ++
           (if kms.length < (d.masters.filter (!·.sparse)).length then ["kernless-master"] else []) ++
-          (if kernedWhereDivergent srcs then ["hyp-holds"] else ["hyp-fails"])
+          (if kernedWhereDivergent srcs then ["hyp-holds"] else ["hyp-fails"]) ++
+          (if (kms.any fun (m, _) => glyphs.any fun g₁ => glyphs.any fun g₂ =>
+                kernAtTerminal f (latn.getD []) m.nloc g₁ g₂ != (kernAt f (latn.getD []) m.nloc g₁ g₂).1)
+            then ["f1-terminal-reading-differs"] else [])
         let nt := srcs.length ≥ 2 && hasKern && srcs.any fun s => !s.groups1.isEmpty || !s.groups2.isEmpty
         if invalid then
           { corr := none, oracle := none, nontrivial := false, tags := tags ++ ["invalid-groups"],
